@@ -387,6 +387,7 @@ struct HistEngine : Engine {
 			outs.push(o);
 			executed++;
 		}
+		child_mark_op((int)ops.size());      // teardown
 		for (auto & S : sl) if (S.e) { IN_LIB_V(mmd_engine_free(S.e, S.own == nullptr)); if (S.own) IN_LIB_V(d_string_free(S.own, true)); }
 #ifndef DISABLE_OBJECT_POOL
 		if (!is_cli) { while (depth-- > 0) IN_LIB_V(token_pool_drain()); IN_LIB_V(token_pool_free()); }
@@ -428,7 +429,36 @@ struct HistEngine : Engine {
 	}
 
 	// ------------------------------------------------------------------ reference: the same call, first in a fresh process
+	// Crash attribution (DESIGN 3.5).  A crash inside (or after) an engine-slot operation may be the delayed effect of an
+	// earlier operation that already broke that engine on its own - e.g. a conversion that leaves a dangling tree which only
+	// the next query or the final mmd_engine_free touches.  So every operation issued to that slot so far is tried as a
+	// *single use of a fresh engine* (create, set language, the operation, free) first in a fresh process; if any of them
+	// fails alone, the failure is input-level memory safety (C01), not hidden history.  A failure that needs REUSE of the
+	// engine (or earlier process history) survives this and is reported.
 	Json isolate(const Json & plan, int k) override {
+		const Json & ops = plan.at("ops");
+		Json cands = Json::array();
+		auto single_use = [&](int j) {
+			Json r = ref_plan(plan, j);
+			if (!r.is_null()) cands.push(r);
+		};
+		if (k >= (int)ops.size()) {
+			for (int j = 0; j < (int)ops.size(); j++) { std::string kk = ops[(size_t)j].gets("k"); if (kk.compare(0, 2, "E_") == 0 && kk != "E_CREATE" && kk != "E_FREE") single_use(j); }
+		} else {
+			const Json & op = ops[(size_t)k];
+			std::string kind = op.gets("k");
+			if (kind == "CLI") return Json();
+			if (kind.compare(0, 2, "E_") == 0 && kind != "E_CREATE") {
+				int s = (int)op.geti("slot") % 3;
+				for (int j = 0; j <= k; j++) { const Json & q = ops[(size_t)j]; std::string kk = q.gets("k"); if (kk.compare(0, 2, "E_") == 0 && kk != "E_CREATE" && kk != "E_FREE" && (int)q.geti("slot") % 3 == s) single_use(j); }
+			} else single_use(k);
+		}
+		if (cands.size() == 0) return Json();
+		Json r = Json::object(); r["any_of"] = cands;
+		return r;
+	}
+	// Reference for the output oracle: the same call (same engine creation arguments, current text, language) made first in a fresh process
+	Json ref_plan(const Json & plan, int k) {
 		const Json & ops = plan.at("ops");
 		const Json & op = ops[(size_t)k];
 		std::string kind = op.gets("k");
@@ -472,7 +502,7 @@ struct HistEngine : Engine {
 		for (size_t k = 0; k < ops.size() && k < outs.size(); k++) {
 			std::string kind = ops[k].gets("k");
 			if (!is_conv(kind) || !outs[k].has("out")) continue;
-			Json iso = isolate(plan, (int)k);
+			Json iso = ref_plan(plan, (int)k);
 			if (iso.is_null()) continue;
 			ChildOutcome r = ctx.run_ref(iso);
 			if (r.status != "finished") continue;      // input-level failure of the reference: not this property's business
